@@ -425,11 +425,6 @@ func c44Ring(p *keyPool, cs *c44Case, which int) openpgp.EntityList {
 	return ring
 }
 
-func signingKeyID(k *keyInfo) uint64 {
-	// the gpg keys sign with their primary key; NewEntity's primary has FlagSign
-	return k.ent.PrimaryKey.KeyId
-}
-
 // c44CheckRoundTrip is oracle (1): Go -> Go.
 func c44CheckRoundTrip(p *keyPool, cs *c44Case, out []byte, which int, bufSize int) (*c44Read, error) {
 	switch cs.op {
@@ -464,20 +459,37 @@ func c44CheckRoundTrip(p *keyPool, cs *c44Case, out []byte, which int, bufSize i
 				return r, fmt.Errorf("EncryptedToKeyIds = %x for %d recipients", md.EncryptedToKeyIds, len(cs.rcpts))
 			}
 			for i, rc := range cs.rcpts {
-				if md.EncryptedToKeyIds[i] != rc.ent.Subkeys[0].PublicKey.KeyId {
-					return r, fmt.Errorf("EncryptedToKeyIds[%d] = %x, want encryption subkey %x", i, md.EncryptedToKeyIds[i], rc.ent.Subkeys[0].PublicKey.KeyId)
+				// keys.go: "Iterate the keys to find the newest key" among the valid encryption subkeys
+				if md.EncryptedToKeyIds[i] != rc.encID {
+					return r, fmt.Errorf("EncryptedToKeyIds[%d] = %x, want the newest valid encryption subkey %x of %s (expired/revoked: %x)", i, md.EncryptedToKeyIds[i], rc.encID, rc.name, rc.badIDs)
 				}
 			}
-			if md.DecryptedWith.Entity == nil {
+			if md.DecryptedWith.Entity == nil || md.DecryptedWith.PublicKey == nil {
 				return r, fmt.Errorf("DecryptedWith not set")
+			}
+			okDec := false
+			for _, rc := range cs.rcpts {
+				okDec = okDec || md.DecryptedWith.PublicKey.KeyId == rc.encID
+			}
+			if !okDec {
+				return r, fmt.Errorf("DecryptedWith is key %x, not one of the recipients' encryption keys", md.DecryptedWith.PublicKey.KeyId)
 			}
 		}
 		if cs.signer != nil {
-			if !md.IsSigned || md.SignedByKeyId != signingKeyID(cs.signer) {
-				return r, fmt.Errorf("IsSigned=%v SignedByKeyId=%x, want signer %x", md.IsSigned, md.SignedByKeyId, signingKeyID(cs.signer))
+			// which key signs: a valid signing subkey if the entity has one, else the primary (keys.go
+			// signingKey); never an expired or revoked one.  One-pass packet, signature packet and
+			// the key that verifies must all name the same key.
+			if !md.IsSigned || !hasID(cs.signer.signIDs, md.SignedByKeyId) {
+				return r, fmt.Errorf("IsSigned=%v SignedByKeyId=%x, want one of the valid signing keys %x of %s", md.IsSigned, md.SignedByKeyId, cs.signer.signIDs, cs.signer.name)
 			}
-			if md.SignedBy == nil || md.SignedBy.PublicKey.KeyId != signingKeyID(cs.signer) || md.Signature == nil {
-				return r, fmt.Errorf("SignedBy/Signature not set although the signer's key is in the keyring")
+			if md.SignedBy == nil || md.Signature == nil {
+				return r, fmt.Errorf("SignedBy/Signature not set although the signer's key %x is in the keyring", md.SignedByKeyId)
+			}
+			if md.Signature.IssuerKeyId == nil || *md.Signature.IssuerKeyId != md.SignedByKeyId || md.SignedBy.PublicKey.KeyId != md.SignedByKeyId {
+				return r, fmt.Errorf("one-pass packet names key %x, the signature packet's issuer is %v, SignedBy is key %x: they must agree", md.SignedByKeyId, md.Signature.IssuerKeyId, md.SignedBy.PublicKey.KeyId)
+			}
+			if md.SignedBy.Entity == nil || md.SignedBy.Entity.PrimaryKey.KeyId != cs.signer.ent.PrimaryKey.KeyId {
+				return r, fmt.Errorf("SignedBy does not resolve to the signer's entity")
 			}
 			if !r.verified() {
 				return r, fmt.Errorf("signature not verified on own output")
@@ -775,24 +787,35 @@ func c44Tamper(p *keyPool, cs *c44Case, orig *c44Shape, mut []byte, msgMut []byt
 
 // ------------------------------------------------------------------ gpg legs
 
-// gpgMinHashBytes is GnuPG's policy for DSA/ECDSA: the digest must be at least
-// as long as the subgroup / curve order (512 bits suffice for P-521).
-func gpgMinHashBytes(k *keyInfo) int {
-	switch k.name {
-	case "dsa", "ecs":
-		return 32
-	case "ec384":
-		return 48
-	case "ec521":
-		return 64
+// sigKeyOf tells which key of the signer makes the signature of an operation:
+// DetachSign* always uses the primary key, Sign/Encrypt use Entity.signingKey
+// (a valid signing subkey if there is one).  It returns the algorithm name and
+// GnuPG's minimum digest length for that key.
+func sigKeyOf(cs *c44Case) (algo string, minHash int) {
+	if cs.signer == nil {
+		return "", 0
 	}
-	return 0
+	if strings.HasPrefix(cs.op, "detach") {
+		return cs.signer.algo, cs.signer.primMinHash
+	}
+	return cs.signer.signAlgo, cs.signer.signMinHash
+}
+
+// validSigBy: gpg reported a valid signature that belongs to k (VALIDSIG names
+// the signing (sub)key's fingerprint first and the primary key's last).
+func validSigBy(stderr []byte, k *keyInfo) bool {
+	for _, l := range strings.Split(string(stderr), "\n") {
+		if strings.HasPrefix(l, "[GNUPG:] VALIDSIG ") && strings.Contains(l, fprOf(k)) {
+			return true
+		}
+	}
+	return false
 }
 
 // textForGPG: texts on whose canonical form gpg's --textmode and RFC 4880 agree.
-// A CR that is not part of a CRLF has no agreed meaning, and gpg's line reader
-// mishandles NUL bytes in an unterminated last line (observed with 2.2.40).
-// gpg also refuses text lines longer than 19995 characters.
+// A CR that is not part of a CRLF has no agreed meaning, gpg's line reader
+// mishandles NUL bytes in an unterminated last line (observed with 2.2.40) and
+// gpg refuses text lines longer than 19995 characters.
 func textForGPG(msg []byte) bool {
 	for _, l := range bytes.Split(msg, []byte{'\n'}) {
 		if len(l) > 19000 {
@@ -823,18 +846,24 @@ func gpgPassOK(pass []byte) bool {
 // isF35 is the exact failing class of known finding F35: an RSA signature
 // whose digest is RIPEMD-160 (crypto/rsa's DigestInfo for RIPEMD-160 is not
 // the one RFC 4880 5.2.2 prescribes), exchanged with another implementation.
-func isF35(signer *keyInfo, h crypto.Hash) bool {
-	return signer != nil && signer.algo == "rsa" && h == crypto.RIPEMD160
+func isF35(sigAlgo string, h crypto.Hash) bool {
+	return sigAlgo == "rsa" && h == crypto.RIPEMD160
 }
 
 const f35What = "F35 RSA signatures with RIPEMD-160 are not interoperable with GnuPG (DigestInfo OID differs from RFC 4880 5.2.2)"
 
 func c44GoToGPG(g *gpgEnv, cs *c44Case, out []byte, usedHash crypto.Hash) (skip string, err error) {
-	if _, listed := ev.IsKnownFinding("F35"); listed && isF35(cs.signer, usedHash) {
+	sigAlgo, minHash := sigKeyOf(cs)
+	if _, listed := ev.IsKnownFinding("F35"); listed && cs.signer != nil && isF35(sigAlgo, usedHash) {
 		return "known:F35", nil
 	}
-	if cs.signer != nil && usedHash != 0 && usedHash.Size() < gpgMinHashBytes(cs.signer) {
+	if cs.signer != nil && usedHash != 0 && usedHash.Size() < minHash {
 		return "gpg-policy:digest-too-short-for-key", nil
+	}
+	for _, k := range append([]*keyInfo{cs.signer}, cs.rcpts...) {
+		if k != nil && k.noGPGSign {
+			return "entity assembled through the API (signing subkey without cross-certification) is not given to gpg", nil
+		}
 	}
 	if cs.op == "symmetric" && !gpgPassOK(cs.pass) {
 		return "passphrase not expressible on gpg's command line", nil
@@ -870,7 +899,7 @@ func c44GoToGPG(g *gpgEnv, cs *c44Case, out []byte, usedHash crypto.Hash) (skip 
 			if cs.op != "sign" && !statusHas(se, "GOODMDC") {
 				return "", fmt.Errorf("gpg did not report GOODMDC: %s", tail(se))
 			}
-			if cs.signer != nil && !(statusHas(se, "GOODSIG") && strings.Contains(string(se), "VALIDSIG "+fprOf(cs.signer))) {
+			if cs.signer != nil && !(statusHas(se, "GOODSIG") && validSigBy(se, cs.signer)) {
 				return "", fmt.Errorf("gpg did not report a good signature by %s: %s", cs.signer.name, tail(se))
 			}
 			return "", nil
@@ -881,7 +910,7 @@ func c44GoToGPG(g *gpgEnv, cs *c44Case, out []byte, usedHash crypto.Hash) (skip 
 			if e != nil {
 				return "", e
 			}
-			if rc != 0 || !statusHas(se, "GOODSIG") || !strings.Contains(string(se), "VALIDSIG "+fprOf(cs.signer)) {
+			if rc != 0 || !statusHas(se, "GOODSIG") || !validSigBy(se, cs.signer) {
 				return "", fmt.Errorf("gpg --verify exit %d: %s", rc, tail(se))
 			}
 			return "", nil
@@ -912,11 +941,17 @@ func c44GoToGPG(g *gpgEnv, cs *c44Case, out []byte, usedHash crypto.Hash) (skip 
 // c44GPGToGo lets gpg produce a message with the case's algorithm choices and
 // reads it with the package.
 func c44GPGToGo(g *gpgEnv, p *keyPool, cs *c44Case, bufSize int) (skip string, err error) {
-	if _, listed := ev.IsKnownFinding("F35"); listed && isF35(cs.signer, cs.hash) {
+	sigAlgo, minHash := sigKeyOf(cs)
+	if _, listed := ev.IsKnownFinding("F35"); listed && cs.signer != nil && isF35(sigAlgo, cs.hash) {
 		return "known:F35", nil
 	}
-	if cs.signer != nil && cs.hash.Size() < gpgMinHashBytes(cs.signer) {
+	if cs.signer != nil && cs.hash.Size() < minHash {
 		return "gpg-policy:digest-too-short-for-key", nil
+	}
+	for _, k := range append([]*keyInfo{cs.signer}, cs.rcpts...) {
+		if k != nil && k.noGPGSign {
+			return "entity assembled through the API (signing subkey without cross-certification) is not given to gpg", nil
+		}
 	}
 	args := []string{"--cipher-algo", c44CipherName[cs.cipher], "--digest-algo", c44HashName[cs.hash]}
 	comp := []string{"none", "zip", "zlib", "bzip2"}[int(cs.randSrc%4)]
@@ -1083,6 +1118,13 @@ func TestC44(t *testing.T) {
 		cs := c44Draw(rt, p)
 		bufSize := rapid.SampledFrom(bufSizes).Draw(rt, "bufsize")
 		which := rapid.IntRange(-1, 1).Draw(rt, "ring")
+		if strings.HasPrefix(cs.op, "detach") && !cs.signer.primarySigns {
+			// DetachSign* always signs with the entity's primary key; a primary that carries only
+			// the certify flag is not a data-signing key (GnuPG and this package's own
+			// KeysByIdUsage refuse such signatures): outside the domain, counted
+			c.Case(false, "", "detach with a certify-only primary (outside the domain)")
+			return
+		}
 		var out []byte
 		var perr error
 		if pn := guard(func() { out, perr = c44Produce(cs) }); pn != nil {
@@ -1110,14 +1152,14 @@ func TestC44(t *testing.T) {
 			classes = append(classes, "sig-hash-used="+c44HashName[usedHash])
 		}
 		if cs.signer != nil {
-			classes = append(classes, "signer="+cs.signer.name)
+			classes = append(classes, "signer="+cs.signer.name, "signer-"+cs.signer.shape)
 			if usedHash == 0 {
 				usedHash = cs.hash
 				classes = append(classes, "sig-hash-used="+c44HashName[usedHash])
 			}
 		}
 		for _, rc := range cs.rcpts {
-			classes = append(classes, "rcpt="+rc.name)
+			classes = append(classes, "rcpt="+rc.name, "rcpt-"+rc.shape)
 		}
 		if cs.op == "symmetric" {
 			classes = append(classes, "sym-cipher="+c44CipherName[cs.cipher], "compression="+c44CompName[cs.comp])
@@ -1239,6 +1281,10 @@ func c44Directed(t *testing.T, c *ev.Collector, p *keyPool, g *gpgEnv) {
 		{"encrypt", "ec384", []string{"dsa"}, packet.CipherAES256, crypto.SHA384, 0},
 		{"encrypt", "gorsa1", []string{"gorsa1", "rsa"}, packet.CipherAES256, crypto.SHA512, 0},
 		{"encrypt", "rsa", []string{"gorsa0"}, packet.CipherCAST5, crypto.SHA1, 0},
+		{"sign", "rsacse", nil, 0, crypto.SHA256, 0},
+		{"sign", "gosub", nil, 0, crypto.SHA256, 0},
+		{"encrypt", "rsascs", []string{"multie"}, packet.CipherAES256, crypto.SHA512, 0},
+		{"encrypt", "revsub", []string{"expsub", "dsacse"}, packet.CipherAES128, crypto.SHA256, 0},
 		{"detach", "rsa", nil, 0, crypto.SHA224, 0},
 		{"detach", "ec521", nil, 0, crypto.SHA512, 0},
 		{"detach-text", "dsa", nil, 0, crypto.SHA256, 0},
